@@ -679,7 +679,7 @@ func runTapeHist(r *Run) {
 	case 1:
 		doc = genHistDoc(r, cfg.ND, true)
 	case 2:
-		d := GenBulkDoc(c, 100+c.Intn("tsz", 100000), []int{FamMixed, FamDeep, FamDenseArrays, FamDenseObjects, FamStrings, FamNumbers, FamWide, FamHugeString})
+		d := GenBulkDoc(c, 100+c.Intn("tsz", 100000), []int{FamMixed, FamDenseArrays, FamDenseObjects, FamStrings, FamNumbers, FamWide, FamHugeString})
 		doc = d.B
 		cfg.ND = false
 	case 3:
